@@ -98,15 +98,15 @@ end Db
 
 /-! ### Carrier (teos/src/carrier.rs) -/
 
-/-- the verdict table of `Carrier::send_transaction` (codes from `rpc_errors.rs`) -/
+/-- the verdict table of `Carrier::send_transaction`: the arms for RPC error codes are extracted
+from the source (`Gen.sendVerdictArms`), anything else is `Rejected(UNKNOWN_JSON_RPC_EXCEPTION)` -/
 def sendVerdict (height : Nat) : SendReply → CStatus
   | .ok => .inMempoolSince height
   | .rpc c =>
-    if c = Gen.RPC_VERIFY_REJECTED then .rejected Gen.RPC_VERIFY_REJECTED
-    else if c = Gen.RPC_VERIFY_ERROR then .rejected Gen.RPC_VERIFY_ERROR
-    else if c = Gen.RPC_VERIFY_ALREADY_IN_CHAIN then .irrevocablyResolved
-    else if c = Gen.RPC_DESERIALIZATION_ERROR then .rejected Gen.RPC_DESERIALIZATION_ERROR
-    else .rejected Gen.UNKNOWN_JSON_RPC_EXCEPTION
+    match Gen.sendVerdictArms.lookup c with
+    | some (.rejected code) => .rejected code
+    | some .resolved => .irrevocablyResolved
+    | none => .rejected Gen.UNKNOWN_JSON_RPC_EXCEPTION
   | .other => .rejected Gen.UNKNOWN_JSON_RPC_EXCEPTION
 
 /-- `Carrier::send_transaction` with the per-block memo `issued_receipts` -/
@@ -125,22 +125,24 @@ def carrierInMempool (node : Node) (tx : TxId) : Bool :=
 
 /-! ### Gatekeeper (teos/src/gatekeeper.rs) -/
 
+/-- one iteration of the refund loop of `delete_appointments`: give the slots of `k` back to its
+owner (in memory) and remember that the owner changed -/
+def refundStep (acc : Tower × List User) (k : Uuid) : Tower × List User :=
+  let (s, upd) := acc
+  match s.db.appts k with
+  | none => (s.abort "gatekeeper.delete_appointments: appointment missing", upd)
+  | some a =>
+    match s.mem.users a.user with
+    | none => (s.abort "gatekeeper.delete_appointments: user missing", upd)
+    | some ui =>
+      let ui' := { ui with slots := ui.slots + slotsOf a.blob.len }
+      ({ s with mem := { s.mem with users := fun x => if x = a.user then some ui' else s.mem.users x } },
+       Db.addKey a.user upd)
+
 /-- `Gatekeeper::delete_appointments(uuids, refund)` -/
 def deleteAppointments (s : Tower) (ks : List Uuid) (refund : Bool) : Tower :=
   if refund then
-    -- give back the slots user by user, remember who changed
-    let step := fun (acc : Tower × List User) (k : Uuid) =>
-      let (s, upd) := acc
-      match s.db.appts k with
-      | none => (s.abort "gatekeeper.delete_appointments: appointment missing", upd)
-      | some a =>
-        match s.mem.users a.user with
-        | none => (s.abort "gatekeeper.delete_appointments: user missing", upd)
-        | some ui =>
-          let ui' := { ui with slots := ui.slots + slotsOf a.blob.len }
-          ({ s with mem := { s.mem with users := fun x => if x = a.user then some ui' else s.mem.users x } },
-           Db.addKey a.user upd)
-    let (s1, upd) := ks.foldl step (s, [])
+    let (s1, upd) := ks.foldl refundStep (s, [])
     let db1 := s1.db.removeAppts ks
     let db2 := upd.foldl (fun d u => match s1.mem.users u with
                                       | some ui => d.setSlots u ui.slots
@@ -181,12 +183,16 @@ def addUpdateAppointment (s : Tower) (u : User) (k : Uuid) (blobLen : Nat) : Tow
                 db := s.db.updateUser u ui' }, some ui'.slots)
     else (s, none)
 
-/-- `Gatekeeper::filtered_block_connected` -/
-def gkConnect (cfg : Cfg) (s : Tower) (height : Nat) : Tower :=
-  let outdated := s.db.userKeys.filter fun u =>
+/-- `Gatekeeper::get_outdated_users(height)` -/
+def outdatedUsers (cfg : Cfg) (s : Tower) (height : Nat) : List User :=
+  s.db.userKeys.filter fun u =>
     match s.mem.users u with
     | some ui => Gen.userOutdated height ui.expiry cfg.grace
     | none => false
+
+/-- `Gatekeeper::filtered_block_connected` -/
+def gkConnect (cfg : Cfg) (s : Tower) (height : Nat) : Tower :=
+  let outdated := outdatedUsers cfg s height
   let s1 := if outdated.isEmpty then s else
     { s with mem := { s.mem with users := fun x => if x ∈ outdated then none else s.mem.users x }
              db := s.db.removeUsers outdated }
@@ -221,73 +227,88 @@ def handleBreach (s : Tower) (node : Node) (k : Uuid) (dispute penalty : TxId) (
           addTracker s' k { dispute := dispute, penalty := penalty, status := st, user := u } else s'
       (s'', st, .get penalty :: rpcs)
 
+/-- one iteration of `check_confirmations` for tracker `k` -/
+def confirmStep (txids : List TxId) (height : Nat) (acc : Tower × List Uuid) (k : Uuid) : Tower × List Uuid :=
+  let (s, done) := acc
+  match s.db.trackers k with
+  | none => acc
+  | some t =>
+    if t.penalty ∈ txids then
+      match s.db.updateTrackerStatus k (.confirmedIn height) with
+      | none => (s.abort "responder.check_confirmations: update_tracker_status", done)
+      | some db' => ({ s with db := db', mem := { s.mem with reorged := s.mem.reorged.filter (· ≠ k) } }, done)
+    else if k ∈ s.mem.reorged then acc
+    else match t.status with
+      | .confirmedIn h =>
+        if h > height then (s.abort "responder.check_confirmations: current_height - h", done)
+        else if Gen.isCompleted (height - h) then (s, done ++ [k]) else acc
+      | _ => acc
+
 /-- `Responder::check_confirmations`; returns the completed trackers -/
 def checkConfirmations (s : Tower) (txids : List TxId) (height : Nat) : Tower × List Uuid :=
-  s.db.liveTrackers.foldl (fun (acc : Tower × List Uuid) (k : Uuid) =>
-    let (s, done) := acc
-    match s.db.trackers k with
-    | none => acc
-    | some t =>
-      if t.penalty ∈ txids then
-        match s.db.updateTrackerStatus k (.confirmedIn height) with
-        | none => (s.abort "responder.check_confirmations: update_tracker_status", done)
-        | some db' => ({ s with db := db', mem := { s.mem with reorged := s.mem.reorged.filter (· ≠ k) } }, done)
-      else if k ∈ s.mem.reorged then acc
-      else match t.status with
-        | .confirmedIn h =>
-          if h > height then (s.abort "responder.check_confirmations: current_height - h", done)
-          else if Gen.isCompleted (height - h) then (s, done ++ [k]) else acc
-        | _ => acc) (s, [])
+  s.db.liveTrackers.foldl (confirmStep txids height) (s, [])
+
+/-- one iteration of `handle_reorged_txs`: re-announce the dispute, then the penalty, of `k` -/
+def reorgStep (node : Node) (height : Nat) (acc : Tower × List Uuid × List Rpc) (k : Uuid) :
+    Tower × List Uuid × List Rpc :=
+  let (s, rej, log) := acc
+  match s.db.trackers k with
+  | none => acc      -- the tracker is gone (dropped by the Watcher in this very block): skipped
+  | some t =>
+    let (m1, st1, l1) := carrierSend s.mem node t.dispute
+    let s1 := { s with mem := m1 }
+    match st1 with
+    | .confirmedIn _ => (s1.abort "responder.handle_reorged_txs: unreachable", rej, log ++ l1)
+    | .rejected _ => (s1, rej ++ [k], log ++ l1)
+    | _ =>
+      let (m2, st2, l2) := carrierSend s1.mem node t.penalty
+      let s2 := { s1 with mem := m2 }
+      if st2.isRejected then (s2, rej ++ [k], log ++ l1 ++ l2)
+      else match s2.db.updateTrackerStatus k (.inMempoolSince height) with
+        | none => (s2.abort "responder.handle_reorged_txs: update_tracker_status", rej, log ++ l1 ++ l2)
+        | some db' => ({ s2 with db := db' }, rej, log ++ l1 ++ l2)
 
 /-- `Responder::handle_reorged_txs`; returns the rejected trackers -/
 def handleReorgedTxs (s : Tower) (node : Node) (height : Nat) : Tower × List Uuid × List Rpc :=
-  let reorged := s.mem.reorged
-  let s0 := { s with mem := { s.mem with reorged := [] } }
-  reorged.foldl (fun (acc : Tower × List Uuid × List Rpc) (k : Uuid) =>
-    let (s, rej, log) := acc
-    match s.db.trackers k with
-    | none => acc      -- the tracker is gone (dropped by the Watcher in this very block): skipped
-    | some t =>
-      let (m1, st1, l1) := carrierSend s.mem node t.dispute
-      let s1 := { s with mem := m1 }
-      match st1 with
-      | .confirmedIn _ => (s1.abort "responder.handle_reorged_txs: unreachable", rej, log ++ l1)
-      | .rejected _ => (s1, rej ++ [k], log ++ l1)
-      | _ =>
-        let (m2, st2, l2) := carrierSend s1.mem node t.penalty
-        let s2 := { s1 with mem := m2 }
-        if st2.isRejected then (s2, rej ++ [k], log ++ l1 ++ l2)
-        else match s2.db.updateTrackerStatus k (.inMempoolSince height) with
-          | none => (s2.abort "responder.handle_reorged_txs: update_tracker_status", rej, log ++ l1 ++ l2)
-          | some db' => ({ s2 with db := db' }, rej, log ++ l1 ++ l2)) (s0, [], [])
+  s.mem.reorged.foldl (reorgStep node height) ({ s with mem := { s.mem with reorged := [] } }, [], [])
+
+/-- is tracker `k` stale at `height`: unconfirmed since at least `CONFIRMATIONS_BEFORE_RETRY` blocks -/
+def isStale (s : Tower) (height : Nat) (k : Uuid) : Bool :=
+  match s.db.trackers k with
+  | some t => match t.status with
+    | .inMempoolSince h => Gen.staleCmp h (height - Gen.CONFIRMATIONS_BEFORE_RETRY)
+    | _ => false
+  | none => false
+
+/-- one iteration of `rebroadcast_stale_txs` -/
+def rebroadcastStep (node : Node) (height : Nat) (acc : Tower × List Uuid × List Rpc) (k : Uuid) :
+    Tower × List Uuid × List Rpc :=
+  let (s, rej, log) := acc
+  match s.db.trackers k with
+  | none => (s.abort "responder.rebroadcast_stale_txs: load_tracker", rej, log)
+  | some t =>
+    let (m1, st, l1) := carrierSend s.mem node t.penalty
+    let s1 := { s with mem := m1 }
+    if st.isRejected then (s1, rej ++ [k], log ++ l1)
+    else match s1.db.updateTrackerStatus k (.inMempoolSince height) with
+      | none => (s1.abort "responder.rebroadcast_stale_txs: update_tracker_status", rej, log ++ l1)
+      | some db' => ({ s1 with db := db' }, rej, log ++ l1)
 
 /-- `Responder::rebroadcast_stale_txs`; returns the rejected trackers -/
 def rebroadcastStaleTxs (s : Tower) (node : Node) (height : Nat) : Tower × List Uuid × List Rpc :=
   if height < Gen.CONFIRMATIONS_BEFORE_RETRY then
     (s.abort "responder.rebroadcast_stale_txs: height - CONFIRMATIONS_BEFORE_RETRY", [], [])
   else
-  let stale := s.db.liveTrackers.filter fun k =>
-    match s.db.trackers k with
-    | some t => match t.status with
-      | .inMempoolSince h => Gen.staleCmp h (height - Gen.CONFIRMATIONS_BEFORE_RETRY)
-      | _ => false
-    | none => false
-  stale.foldl (fun (acc : Tower × List Uuid × List Rpc) (k : Uuid) =>
-    let (s, rej, log) := acc
-    match s.db.trackers k with
-    | none => (s.abort "responder.rebroadcast_stale_txs: load_tracker", rej, log)
-    | some t =>
-      let (m1, st, l1) := carrierSend s.mem node t.penalty
-      let s1 := { s with mem := m1 }
-      if st.isRejected then (s1, rej ++ [k], log ++ l1)
-      else match s1.db.updateTrackerStatus k (.inMempoolSince height) with
-        | none => (s1.abort "responder.rebroadcast_stale_txs: update_tracker_status", rej, log ++ l1)
-        | some db' => ({ s1 with db := db' }, rej, log ++ l1)) (s, [], [])
+    (s.db.liveTrackers.filter (isStale s height)).foldl (rebroadcastStep node height) (s, [], [])
+
+/-- the first two statements of `Responder::filtered_block_connected`: carrier height and tx index -/
+def respPrepare (s : Tower) (b : Nat) (height : Nat) (txs : List TxId) : Tower :=
+  { s with mem := { s.mem with cHeight := height,
+                               txIndex := s.mem.txIndex.update b (txs.map fun t => (t, b)) } }
 
 /-- `Responder::filtered_block_connected` -/
 def respConnect (s : Tower) (node : Node) (b : Nat) (height : Nat) (txs : List TxId) : Tower × List Rpc :=
-  let s1 := { s with mem := { s.mem with cHeight := height,
-                                          txIndex := s.mem.txIndex.update b (txs.map fun t => (t, b)) } }
+  let s1 := respPrepare s b height txs
   let (s2, completed) := checkConfirmations s1 txs height
   let s3 := if completed.isEmpty then s2 else deleteAppointments s2 completed true
   let (s4, rej1, log1) := if s3.mem.reorged.isEmpty then (s3, [], []) else handleReorgedTxs s3 node height
@@ -300,7 +321,9 @@ def respConnect (s : Tower) (node : Node) (b : Nat) (height : Nat) (txs : List T
 def respDisconnect (s : Tower) (b : Nat) (height : Nat) : Tower :=
   let confirmedHere := s.db.liveTrackers.filter fun k =>
     match s.db.trackers k with
-    | some t => t.status = .confirmedIn height
+    | some t => match t.status with
+      | .confirmedIn h => Gen.confirmedCmp h height
+      | _ => false
     | none => false
   { s with mem := { s.mem with cHeight := height,
                                txIndex := s.mem.txIndex.removeDisconnected b,
@@ -395,19 +418,27 @@ def getSubscriptionInfo (s : Tower) (signer : Option User) : Reply :=
   | .error e => e
   | .ok (u, ui) => .subscription ui.slots ui.expiry (s.db.userLocators u)
 
+/-- one iteration of the inner loop of `handle_breaches`: appointment `k` triggered by dispute `d` -/
+def breachStep (node : Node) (d : TxId) (acc : Tower × List Uuid × List Rpc) (k : Uuid) :
+    Tower × List Uuid × List Rpc :=
+  let (s, inv, log) := acc
+  match s.db.appts k with
+  | none => (s.abort "watcher.handle_breaches: load_appointment", inv, log)
+  | some a =>
+    match a.blob.decrypt d with
+    | some p =>
+      let (s', st, l) := handleBreach s node k d p a.user
+      if st.isRejected then (s', inv ++ [k], log ++ l) else (s', inv, log ++ l)
+    | none => (s, inv ++ [k], log)
+
+/-- the outer loop: every appointment whose locator is the locator of dispute `d` -/
+def disputeStep (node : Node) (acc : Tower × List Uuid × List Rpc) (d : TxId) :
+    Tower × List Uuid × List Rpc :=
+  (acc.1.db.uuidsWithLoc (locOf d)).foldl (breachStep node d) acc
+
 /-- `Watcher::handle_breaches` over the breaches of one block; returns the invalid ones -/
 def handleBreaches (s : Tower) (node : Node) (disputes : List TxId) : Tower × List Uuid × List Rpc :=
-  disputes.foldl (fun (acc : Tower × List Uuid × List Rpc) (d : TxId) =>
-    (acc.1.db.uuidsWithLoc (locOf d)).foldl (fun (acc : Tower × List Uuid × List Rpc) (k : Uuid) =>
-      let (s, inv, log) := acc
-      match s.db.appts k with
-      | none => (s.abort "watcher.handle_breaches: load_appointment", inv, log)
-      | some a =>
-        match a.blob.decrypt d with
-        | some p =>
-          let (s', st, l) := handleBreach s node k d p a.user
-          if st.isRejected then (s', inv ++ [k], log ++ l) else (s', inv, log ++ l)
-        | none => (s, inv ++ [k], log)) acc) (s, [], [])
+  disputes.foldl (disputeStep node) (s, [], [])
 
 /-- `Watcher::filtered_block_connected` -/
 def watcherConnect (s : Tower) (node : Node) (b : Nat) (height : Nat) (txs : List TxId) : Tower × List Rpc :=
